@@ -25,7 +25,10 @@ CONSTANTS
     Vals,        \* set of values, positive integers
     MaxChain,    \* hamt.go maxChain (7 in the code; a constant here so that
                  \* forced flattening is reached at small scale)
-    DevF7        \* deviation: emptied flatten keeps the old chain (finding F7)
+    DevF7,       \* deviation: emptied flatten keeps the old chain (finding F7)
+    DevStaleStamp \* deviation: an item may be put with an OLDER clock than the chain's (before
+                 \* fix 31dd09b Meta.LayeredOnto stamped a committed table info with the clock
+                 \* of the transaction's snapshot)
 
 TOMB == -1                  \* value of a tombstone entry
 ALL == -1000000             \* hamt.All (math.MinInt): "every item, no tombstones"
@@ -142,6 +145,14 @@ Put(k, v) == /\ ~(cur[k].v = v /\ cur[k].lm = c.clock)
              /\ cur' = MPut(cur, k, v, c.clock)
              /\ UNCHANGED <<c, file, next, lastOff, persisted, nw, nr>>
 
+\* transaction commit before fix 31dd09b: the entry is put (same or new content) with the
+\* clock the transaction saw when it began
+PutStale(k, v) == /\ DevStaleStamp /\ c.clock > 0
+                  /\ \E lm \in 0..(c.clock - 1) :
+                        /\ ~(cur[k].v = v /\ cur[k].lm = lm)
+                        /\ cur' = MPut(cur, k, v, lm)
+                  /\ UNCHANGED <<c, file, next, lastOff, persisted, nw, nr>>
+
 \* meta.Drop / RenameTable: tombstone for an existing entry
 Tomb(k) == /\ cur[k].v > 0
            /\ cur' = MTomb(cur, k, c.clock)
@@ -183,7 +194,7 @@ Reopen ==
     /\ UNCHANGED <<file, next, lastOff, persisted, nw>>
 
 Next == \/ Persist \/ Reopen
-        \/ \E k \in Keys : Tomb(k) \/ Delete(k) \/ \E v \in Vals : Put(k, v)
+        \/ \E k \in Keys : Tomb(k) \/ Delete(k) \/ \E v \in Vals : Put(k, v) \/ PutStale(k, v)
 
 Spec == Init /\ [][Next]_vars
 
